@@ -182,7 +182,7 @@ pub fn c06_family(rep: &mut Report) {
 /// goes unnoticed with probability (1/n!)^(attempts-1).
 pub fn c06_internal_sets_family(rep: &mut Report) {
     use crate::pipeline::{self, Cfg, Outcome, SrcFile, ALL_LANGS};
-    let programs: [(&str, &str, bool); 4] = [
+    let programs: [(&str, &str, bool); 5] = [
         (
             "alias-chains-and-variants-carrying-them",
             "#[typeshare]\npub struct Point { pub x: u32 }\n#[typeshare]\npub type Position = Point;\n#[typeshare]\npub type Anchor = Position;\n#[typeshare]\npub type Pin = Anchor;\n#[typeshare]\npub type Label = String;\n#[typeshare]\npub type Title = Label;\n#[typeshare]\n#[serde(tag = \"t\", content = \"c\")]\npub enum Shape { Pinned(Anchor), Placed(Pin), Named(Title), At(Position), Raw(Point), Free }\n",
@@ -199,6 +199,12 @@ pub fn c06_internal_sets_family(rep: &mut Report) {
             true,
         ),
         (
+            // run under list-valued settings with several entries each (see below)
+            "unit-type-and-generics-under-list-valued-settings",
+            "#[typeshare]\npub struct Ping { pub nothing: (), pub user_id: u32, pub api_url: String }\n#[typeshare]\npub struct Holder<T, U> { pub t: T, pub u: Vec<U>, pub n: Option<()> }\n#[typeshare(swift = \"Codable, CaseIterable, Comparable\")]\npub enum Level { Low, High }\n",
+            false,
+        ),
+        (
             "many-renamed-references",
             "#[typeshare]\n#[serde(rename = \"AlphaR\")]\npub struct Alpha { pub b: Beta, pub g: Vec<Gamma> }\n#[typeshare]\n#[serde(rename = \"BetaR\")]\npub struct Beta { pub g: Option<Gamma> }\n#[typeshare]\n#[serde(rename = \"GammaR\")]\npub struct Gamma { pub x: u32 }\n#[typeshare]\n#[serde(rename = \"DeltaR\")]\npub type Delta = HashMap<String, Alpha>;\n",
             false,
@@ -210,6 +216,13 @@ pub fn c06_internal_sets_family(rep: &mut Report) {
     for (name, src, mapped) in programs {
         for &lang in &ALL_LANGS {
             let mut cfg = Cfg::plain();
+            if name.ends_with("list-valued-settings") {
+                let v = |a: &[&str]| a.iter().map(|s| s.to_string()).collect::<Vec<_>>();
+                cfg.swift_default_decorators = v(&["Sendable", "Identifiable"]);
+                cfg.swift_default_generic_constraints = v(&["Sendable", "Hashable", "Equatable"]);
+                cfg.swift_codablevoid_constraints = v(&["Equatable", "Hashable", "Comparable", "Sendable"]);
+                cfg.go_uppercase_acronyms = v(&["ID", "URL", "API"]);
+            }
             if mapped {
                 let (date, bytes, url) = match lang {
                     Lang::TypeScript => ("Date", Some("Uint8Array"), "string"),
